@@ -8,7 +8,6 @@ import hashlib
 import importlib.machinery as M
 
 sys.dont_write_bytecode = True
-os.environ.setdefault("NUMBA_DISABLE_JIT", "1")
 REPO = os.environ.get("VF_REPO", "/repo")
 LOADED = {}  # path -> sha256 of source
 MUTATORS = {}  # path suffix -> callable(tree) -> tree
